@@ -13,6 +13,7 @@ ASSUMPTIONS = [
     "label domain: species labels start with a letter and contain no blank, '+', '>' or '|' (the text format is ambiguous otherwise); species labels and reaction ids are disjoint",
     "flag combinations that claim invertibility: bipartite export with include_stoich, include_edge_id_attr, include_mol; strings with include_rule_suffix",
     "molecule labels include falsy identifiers (0, '') since assign_mol documents ints and strings as legitimate",
+    "a registered species that occurs in no reaction: the statement promises the reactions, ids, rules, coefficients and molecule labels, not the species set; only those are required with such a species present (both include_isolated_species settings)",
     "species-graph round trip is only required for networks whose reactions all have both sides, and only for ids and stoichiometry",
 ]
 RULE = {
@@ -124,6 +125,42 @@ def check(case):
                 fails.append(Fail("species_graph", f"mol={inc_mol}: {got}", str(w), key_extra=str(inc_mol)))
             elif inc_mol and dict(H4.species_to_mol) != want_mol:
                 fails.append(Fail("species_graph_mol", f"{dict(H4.species_to_mol)}", str(want_mol)))
+    # ---- a registered species that occurs in no reaction (left behind by remove_species(..., prune_orphans=False))
+    H6 = H.copy()
+    first_sp = sorted(H.species)[-1]
+    H6.add_rxn({first_sp: 1}, {"Aa0": 1}, rule="iso", edge_id="tmp_iso")
+    H6.remove_species("Aa0", prune_orphans=False)  # strips Aa0 from tmp_iso and leaves it registered
+    want_iso = dict(want)
+    want_iso["tmp_iso"] = ("iso", ((first_sp, 1),), ())
+    if "Aa0" in H6.species and canon_rx(H6) == want_iso:
+        want, want_keep = want_iso, want
+        for integer_ids in (False, True):
+            for keep in (True, False):
+                G = cv.hypergraph_to_bipartite(H6, integer_ids=integer_ids, include_isolated_species=keep, include_stoich=True, include_edge_id_attr=True, include_mol=True)
+                H7 = cv.bipartite_to_hypergraph(G)
+                n += 1
+                cfg = f"int={integer_ids},isolated_kept={keep}"
+                if canon_rx(H7) != want or dict(H7.species_to_mol) != want_mol:
+                    fails.append(Fail("bipartite_with_isolated_species", f"{cfg}: {canon_rx(H7)} labels {dict(H7.species_to_mol)}", f"{want} labels {want_mol}", key_extra=cfg))
+        want = want_keep
+    # ---- the view objects the analysis classes hand out (built lazily per object): taken, the network edited with the same numbers of
+    # species and reactions (first reaction reversed under its id), taken again through a new object
+    from synkit.CRN.Topo.canon import CRNCanonicalizer
+
+    e0 = sorted(H.edges)[0]
+    for integer_ids in (False, True):
+        for stage in ("first", "after_edit"):
+            G = CRNCanonicalizer(H, include_rule=True, integer_ids=integer_ids).G
+            H5 = cv.bipartite_to_hypergraph(G)
+            n += 1
+            if Counter(canon_rx(H5).values()) != Counter(canon_rx(H).values()):  # this view does not carry the ids
+                fails.append(Fail("view_object", f"int={integer_ids} {stage}: {sorted(canon_rx(H5).values())}", str(sorted(canon_rx(H).values())), key_extra=f"{integer_ids},{stage}"))
+                break
+            if stage == "first":
+                e = H.edges[e0]
+                l0, r0, rule0 = dict(e.reactants), dict(e.products), e.rule
+                H.remove_rxn(e0)
+                H.add_rxn(r0, l0, rule=rule0, edge_id=e0)
     feats = []
     if any(any(a and b for a, b in zip(l, r)) for l, r in net):
         feats.append("cat")
